@@ -297,6 +297,8 @@ class SymEval:
             if nd.kind == "entry":
                 return ("param", name)
             val = self.cfg.def_value(d, name)
+            if (name + "[]") in self._all_defs:
+                val = None  # elements are stored into the object later: its defining expression no longer describes it
             if val is not None and depth < self.max_depth and nd.kind == "stmt" and isinstance(nd.ast, (
                     ast.Assign, ast.AnnAssign)):
                 vt = self.term(val, d, depth + 1)
